@@ -38,6 +38,9 @@ type FakeServer struct {
 	// PrepareHook, when set, can describe a statement of COM_STMT_PREPARE the store's own parser does not take (joins,
 	// sub-queries: C09); its executions are then answered by Hook (the bound parameters are in Received()).
 	PrepareHook func(sql string) (nparams int, fields []Field, ok bool)
+
+	// sqlSess: statements of the SQL syntax for prepared statements and user variables of this connection (sqlprepare.go)
+	sqlSess *sqlSession
 }
 
 func newFakeServer(conn net.Conn, store *Store, caps uint32) *FakeServer {
@@ -191,6 +194,15 @@ func (f *FakeServer) serve() {
 					f.sendResult(w, res, false)
 					break
 				}
+			}
+			// PREPARE / EXECUTE / DEALLOCATE PREPARE / SET @variable (sqlprepare.go)
+			if res, handled, err := f.sqlPrepared(sql); handled {
+				if err != nil {
+					f.sendErr(w, err)
+				} else {
+					f.sendResult(w, res, false)
+				}
+				break
 			}
 			pr, err := f.Store.Prepare(sql)
 			var res *Result
